@@ -103,7 +103,7 @@ PROPS = {
         "level_text": "Theorems (Props/C07.lean) over all operation lists: base collector holds/renders exactly the samples accepted since the last Reset "
                       "(base_faithful_log), never more than capacity, Info = held samples, rejected Add is a no-op, Reset discards everything; batch collector: "
                       "accepted Add appends exactly that sample, rejected Add is a no-op, every chunk <= N and every chunk but the last = N for every sequence of Adds, and it holds exactly the accepted samples once each and in order across every "
-                      "chunk roll-over (batch_faithful_log); "
+                      "chunk roll-over (batch_faithful_log), and every chunk it resolves to is decoded by the reader model to exactly its samples (batch_output_decodes); "
                       "streaming and schema-aware streaming collectors (streaming_faithful_log, streaming_dynamic_faithful_log): after any sequence of Adds over a writer that "
                       "accepts every write, the samples in the writer followed by the pending ones are exactly the accepted samples, once each and in order - across every "
                       "automatic flush and every schema-change flush; streaming_writer_decodes_to_accepted: every chunk in the writer is DECODED by the reader model (C01's "
